@@ -557,6 +557,7 @@ func c16Run(r *hx.Run, bin string, seq *c16Seq, rnd *rand.Rand) {
 		}
 	}()
 	removed := map[string]bool{}
+	kaS2, kaS2Used := hx.NewClient(nil), false
 	pad := 0
 	var removedAt time.Time
 	nsteps := 2 + rnd.Intn(5)
@@ -595,6 +596,21 @@ func c16Run(r *hx.Run, bin string, seq *c16Seq, rnd *rand.Rand) {
 				logical.Caches[1].Size = 777
 				logical.Caches[1].HitForPass = "10m"
 				return "cache c1: size and hitForPass changed (restart-only settings)"
+			},
+		}
+	case "compress_section_emptied":
+		script = []func() string{
+			func() string {
+				// the only profile left is an override of bestCompression ...
+				findSrv(logical, "S1").Compress = ""
+				logical.Compresses = []config.CompressConfig{{Name: "bestCompression", Levels: map[string]uint{"gzip": 1, "br": 1}}}
+				return "cmpA removed (S1 uses the default profile), bestCompression overridden with gzip:1 br:1"
+			},
+			func() string {
+				// ... and then the whole section disappears from the saved document
+				logical.Compresses = nil
+				seq.OverrodeBestAndBack = true
+				return "last compress profile removed: the compresses section is gone from the file"
 			},
 		}
 	case "save_during_slow_update":
@@ -722,6 +738,23 @@ func c16Run(r *hx.Run, bin string, seq *c16Seq, rnd *rand.Rand) {
 			return
 		}
 		r.Add("steps_applied_via_"+method, 1)
+		if findSrv(logical, "S2") != nil {
+			// a client (think of a front proxy) keeps a connection to S2 open
+			if res := kaS2.Do(hx.Req{Addr: srvAddr(L.ports["S2"]), Host: "hh.example", URI: fmt.Sprintf("/p0/keepalive?size=300&n=%d", si), Timeout: 5 * time.Second}); res.Err == nil {
+				kaS2Used = true
+			}
+		} else if kaS2Used && removed["S2"] {
+			// S2 has just been removed: over the connection that is still open it must not be served as before
+			res := kaS2.Do(hx.Req{Addr: srvAddr(L.ports["S2"]), Host: "hh.example", URI: fmt.Sprintf("/p0/keepalive?size=300&after_removal=%d", si), Timeout: 5 * time.Second})
+			r.Add("requests_over_kept_connection_to_removed_server", 1)
+			if res.Err == nil && res.Status == 200 {
+				stop.Store(true)
+				twg.Wait()
+				r.Violate("removed_server_still_serving", map[string]string{"via": "kept_alive_connection"}, "a server removed from the configuration still answers 200 over a connection opened before the update", res.Brief(), cs)
+				return
+			}
+			kaS2Used = false
+		}
 	}
 	time.Sleep(100 * time.Millisecond)
 	stop.Store(true)
@@ -894,7 +927,7 @@ func c16Run(r *hx.Run, bin string, seq *c16Seq, rnd *rand.Rand) {
 }
 
 func c16(r *hx.Run) {
-	r.Rule = "two real pike processes per sequence. The live one starts on a base configuration (2 caches, 2 upstreams, 2 locations, 2 servers, 1 compress profile) and receives 2-6 random valid updates (30 mutation kinds: set/unset min length, filter, compress profile, cache, location list; add/remove server, location, upstream, compress profile; set/unset rewrites, added headers, added query, upstream Accept-Encoding, upstream server list; override/remove bestCompression) through the admin PUT /config or a single in-place write of the file, each completion observed through the update.done hook, under continuous traffic on an unchanged server; the fresh one is started on the final configuration. A probe suite derived from the final configuration (servers x 4 prefixes x sizes around the effective threshold x 3 content types x cacheable or not x Accept-Encoding, each twice) is run against both and compared field by field (status, label, encoding, encoded and decoded bytes, headers, which origin saw which path/query/headers), plus cache binding between servers, the retained hit of a key cached before the updates, and (one sequence) that a removed server stops listening. Nine directed sequences add: bestCompression overridden then removed, a server removed and re-added, cache switch/rename, a level set then unset, two servers removed at once, a cache sharing a store removed, restart-only cache settings changed, and a configuration saved while the previous one (with an upstream whose health endpoint is slow) is still being applied. Non-trivial/distinct = step sequence."
+	r.Rule = "two real pike processes per sequence. The live one starts on a base configuration (2 caches, 2 upstreams, 2 locations, 2 servers, 1 compress profile) and receives 2-6 random valid updates (30 mutation kinds: set/unset min length, filter, compress profile, cache, location list; add/remove server, location, upstream, compress profile; set/unset rewrites, added headers, added query, upstream Accept-Encoding, upstream server list; override/remove bestCompression) through the admin PUT /config or a single in-place write of the file, each completion observed through the update.done hook, under continuous traffic on an unchanged server; the fresh one is started on the final configuration. A probe suite derived from the final configuration (servers x 4 prefixes x sizes around the effective threshold x 3 content types x cacheable or not x Accept-Encoding, each twice) is run against both and compared field by field (status, label, encoding, encoded and decoded bytes, headers, which origin saw which path/query/headers), plus cache binding between servers, the retained hit of a key cached before the updates, and (one sequence) that a removed server stops listening. Ten directed sequences add: the last compress profile (an override of bestCompression) removed so that the whole section disappears from the saved file, bestCompression overridden then removed, a server removed and re-added, cache switch/rename, a level set then unset, two servers removed at once, a cache sharing a store removed, restart-only cache settings changed, and a configuration saved while the previous one (with an upstream whose health endpoint is slow) is still being applied. Non-trivial/distinct = step sequence."
 	r.Assume = []string{"restart-only settings (cache size/hit-for-pass/store, server log format, admin) are never changed", "gzip/brotli are deterministic, so equal levels give equal bytes", "addresses differ between the two processes and are not compared"}
 	bin, err := hx.BuildPike(r.Scratch)
 	if err != nil {
@@ -906,7 +939,7 @@ func c16(r *hx.Run) {
 	n := r.Pick(8, 400)
 	sem := make(chan struct{}, 8)
 	var wg sync.WaitGroup
-	for i := 0; i < n+9 && !r.TooMany(); i++ {
+	for i := 0; i < n+10 && !r.TooMany(); i++ {
 		seq := &c16Seq{ID: i, CheckRemovedListener: i%8 == 0}
 		if i == n {
 			seq.Directed = "best_override_then_remove"
@@ -934,6 +967,9 @@ func c16(r *hx.Run) {
 		}
 		if i == n+8 {
 			seq.Directed = "save_during_slow_update"
+		}
+		if i == n+9 {
+			seq.Directed = "compress_section_emptied"
 		}
 		seed := rnd.Int63()
 		wg.Add(1)
